@@ -35,7 +35,7 @@ def mk_items(sess, suite, k, nkeys):
             if m.ok and m["v"] != "id":
                 R = m["v"]
                 sess.count("odd-R item")
-        items.append({"vk": vk, "R": R, "z": z, "msg": msg})
+        items.append({"vk": vk, "R": R, "z": z, "msg": msg, "sk": sk})
     return items
 
 
@@ -70,6 +70,21 @@ def batch(sess, suite, k, bad_pos, kind):
         items[b] = dict(items[a], msg=items[a]["msg"] + "ff")
         bad_pos = [b]
         expect_valid = False
+    elif kind == "mirror" and suite == "secp256k1-tr" and k >= 1:
+        # z' = 2*c*d - z: the recomputed commitment is -R, which has the SAME x-coordinate as R but odd Y;
+        # BIP-340 requires even Y, so the item is invalid (a verifier that compares x-coordinates only accepts it)
+        import hashlib
+        p_ = bad_pos[0] if bad_pos else rng.randrange(k)
+        it = items[p_]
+        th = hashlib.sha256(b"BIP0340/challenge").digest()
+        c = int.from_bytes(hashlib.sha256(th + th + bytes.fromhex(it["R"])[1:] + bytes.fromhex(it["vk"])[1:] + bytes.fromhex(it["msg"])).digest(), "big") % fld.q
+        d = fld.dec(it["sk"])
+        if it["vk"][:2] == "03":
+            d = fld.q - d
+        it["z"] = fld.enc(2 * c * d - fld.dec(it["z"]))
+        it["mirror"] = True
+        bad_pos = [p_]
+        expect_valid = False
     elif kind == "samekey-aba" and k >= 3:
         # valid items whose keys re-appear after an item under another key (A, B, A, ...)
         pass
@@ -102,6 +117,8 @@ def batch(sess, suite, k, bad_pos, kind):
         sig = "%s:%s" % (it["R"], it["z"])
         v = sess.call("verify %s vk=%s msg=%s sig=%s" % (suite, it["vk"], it["msg"], sig), CLASS, "verify")
         s1 = sess.call("batch_single %s vk=%s msg=%s sig=%s" % (suite, it["vk"], it["msg"], sig), CLASS, "batch_single")
+        if it.get("mirror"):
+            sess.oracle(not v.ok, "ordinary verification accepted a signature whose recomputed commitment is -R (same x, odd Y)", [sess.records[-2][0]])
         sess.oracle(v.raw == s1.raw, "single-item batch verification disagrees with ordinary verification (%s vs %s)" % (s1.raw, v.raw), [sess.records[-2][0], sess.records[-1][0]])
         indiv &= v.ok
     req = "batch %s items=%s tape=%s" % (suite, item_str(items), sess.tape(128 * max(1, k)))
@@ -145,6 +162,9 @@ def generate(sess):
                 batch(sess, suite, k, [], "valid")
             for kind in crafted:
                 batch(sess, suite, rng.randrange(3, 8), [], kind)
+            if suite == "secp256k1-tr":
+                for k in (1, 3):
+                    batch(sess, suite, k, [], "mirror")
             for kind in (kinds if thorough else rng.sample(kinds, 3)):
                 k = rng.randrange(2, 6)
                 batch(sess, suite, k, rng.sample(range(k), 2 if kind.startswith("pair") else 1), kind)
